@@ -7,7 +7,7 @@
    found only below the implementation's output.  An output reference to an
    input object therefore shows up as an address < n_in. *)
 From Coq Require Import List NArith ZArith Bool.
-From Dials Require Export Base.Outcome Base.Runes Reflect.Ty Reflect.Heap Copy.DeepCopy Copy.Canon.
+From Dials Require Export Base.Outcome Base.Runes Reflect.Ty Reflect.Heap Copy.DeepCopy Copy.DeepCopySpec Copy.Canon.
 Import ListNotations.
 Open Scope N_scope.
 
@@ -38,6 +38,9 @@ Definition check (c : c03case) : N :=
       let hin := input_heap H n_in in
       let fuel := walk_fuel H root in
       let m := model mode fuel hin n_in root in
+      (* the shipped input must satisfy the decidable hypotheses of the theorems
+         (finite, closed, kind-correct); otherwise the harness is broken *)
+      if negb (wf_heapb hin n_in && wf_kindsb hin && root_kindsb hin root && refs_belowb n_in (refs root)) then 1 else
       match impl with
       | None =>
           (* did not terminate *)
